@@ -277,6 +277,8 @@ fn case_large_api(t: &mut Tape, st: &mut Stats) -> Verdict {
 #[derive(Clone, Debug)]
 enum SOp {
     Alias(String, String),  // alias <name> cap <tag>
+    /// alias <name> unalias <other>: an alias whose invocation removes an alias (possibly itself)
+    AliasUnalias(String, String),
     Unalias(String),
     RemoveCommand(String),
     IsDefined(String),
@@ -291,6 +293,21 @@ struct SModel {
     alias_created: HashSet<String>,
     /// what invoking an identity does: Alias(tag) / Fn(tag) / Other
     behaviour: HashMap<String, (u8, String)>,
+}
+
+/// what `unalias n` does to the model (documented: removes a previously defined alias)
+fn model_unalias(m: &mut SModel, n: &str, classes: &mut HashSet<&'static str>) -> bool {
+    if m.alias_created.contains(n) && m.reg.get(n).map(|id| id.starts_with("alias:")).unwrap_or(false) && !m.reg.aliases.contains_key(n) {
+        m.reg.remove(n);
+        m.alias_created.remove(n);
+        true
+    } else if m.reg.aliases.contains_key(n) {
+        m.reg.aliases.remove(n);
+        classes.insert("unalias-of-registry-alias");
+        true
+    } else {
+        false
+    }
 }
 
 fn case_script(t: &mut Tape, st: &mut Stats) -> Verdict {
@@ -312,7 +329,11 @@ fn case_script(t: &mut Tape, st: &mut Stats) -> Verdict {
     for _ in 0..n {
         let name = t.pick(SNAMES).to_string();
         tag += 1;
-        ops.push(match t.weighted(&[4, 3, 3, 2, 3, 4]) {
+        ops.push(match t.weighted(&[4, 3, 3, 2, 3, 4, 1]) {
+            6 => {
+                let other = if t.flip() { name.clone() } else { t.pick(SNAMES).to_string() };
+                SOp::AliasUnalias(name, other)
+            }
             0 => SOp::Alias(name, format!("t{}", tag)),
             1 => SOp::Unalias(name),
             2 => SOp::RemoveCommand(name),
@@ -369,24 +390,32 @@ fn case_script(t: &mut Tape, st: &mut Stats) -> Verdict {
                     _ => return Verdict::Discard("a command needed by the history was removed"),
                 }
             }
+            SOp::AliasUnalias(n, other) => {
+                script.push_str(&format!("{} = alias {} unalias {}\n", out, n, other));
+                line += 1;
+                match m.reg.get("alias").cloned() {
+                    Some(id) if id.starts_with("sdk:") => {
+                        let id = format!("alias:u{}:{}", i, other);
+                        if m.reg.set(n, &[], &id) {
+                            m.alias_created.insert(n.clone());
+                            m.behaviour.insert(id, (2, other.clone()));
+                            expected_vars.push((out, Some("true".into())));
+                            classes.insert("alias-that-removes-an-alias");
+                        } else {
+                            classes.insert("refused-alias");
+                            expected_vars.push((out, Some("false".into())));
+                        }
+                    }
+                    _ => return Verdict::Discard("a command needed by the history was removed"),
+                }
+            }
             SOp::Unalias(n) => {
                 script.push_str(&format!("{} = unalias {}\n", out, n));
                 line += 1;
                 if !m.reg.get("unalias").map(|s| s.starts_with("sdk:")).unwrap_or(false) {
                     return Verdict::Discard("a command needed by the history was removed");
                 }
-                // documented: removes a previously defined alias
-                let r = if m.alias_created.contains(n) && m.reg.get(n).map(|id| id.starts_with("alias:")).unwrap_or(false) && !m.reg.aliases.contains_key(n) {
-                    m.reg.remove(n);
-                    m.alias_created.remove(n);
-                    true
-                } else if m.reg.aliases.contains_key(n) {
-                    m.reg.aliases.remove(n);
-                    classes.insert("unalias-of-registry-alias");
-                    true
-                } else {
-                    false
-                };
+                let r = model_unalias(&mut m, n, &mut classes);
                 expected_vars.push((out, Some(r.to_string())));
             }
             SOp::RemoveCommand(n) => {
@@ -434,7 +463,13 @@ fn case_script(t: &mut Tape, st: &mut Stats) -> Verdict {
                 }
             }
             SOp::Invoke(n) => {
-                script.push_str(&format!("{} = {} arg{}\n", out, n, i));
+                // an alias of `unalias <x>` is invoked without an argument (unalias takes exactly one)
+                let bare = m.reg.get(n).and_then(|id| m.behaviour.get(id)).map(|b| b.0 == 2).unwrap_or(false);
+                if bare {
+                    script.push_str(&format!("{} = {}\n", out, n));
+                } else {
+                    script.push_str(&format!("{} = {} arg{}\n", out, n, i));
+                }
                 line += 1;
                 match m.reg.get(n).cloned() {
                     None => {
@@ -452,6 +487,19 @@ fn case_script(t: &mut Tape, st: &mut Stats) -> Verdict {
                                 // the aliased command is gone: the alias reports an error
                                 expected_vars.push((out, Some("false".into())));
                                 classes.insert("invocation-of-alias-whose-target-was-removed");
+                            }
+                        }
+                        Some((2, target)) => {
+                            // runs `unalias <target> arg`: unalias looks at its first argument
+                            if !m.reg.get("unalias").map(|s| s.starts_with("sdk:")).unwrap_or(false) {
+                                expected_vars.push((out, Some("false".into())));
+                            } else {
+                                let target = target.clone();
+                                if target == *n {
+                                    classes.insert("alias-removing-itself-while-it-runs");
+                                }
+                                let r = model_unalias(&mut m, &target, &mut classes);
+                                expected_vars.push((out, Some(r.to_string())));
                             }
                         }
                         Some((_, tg)) => {
@@ -609,7 +657,7 @@ pub fn property() -> Property {
                     Tier::Thorough => Plan::Random { cases: 3_200_000, max_len: 160 },
                 },
                 case: case_script,
-                min_classes: &[("refused-alias", 500), ("function-defined", 500), ("invocation-of-function", 300), ("remove-through-alias", 500), ("two-runs-first-ends-with-exit", 2000)],
+                min_classes: &[("refused-alias", 500), ("function-defined", 500), ("invocation-of-function", 300), ("remove-through-alias", 500), ("two-runs-first-ends-with-exit", 2000), ("alias-removing-itself-while-it-runs", 300)],
             },
         ],
         probes: vec![],
